@@ -146,7 +146,7 @@ Record thread := {
   th_bg : bool;                (* the expiry goroutine (tomb.Go) *)
   th_inv : nat;                (* time of invocation of the running operation *)
   th_pub : option txid;        (* the running operation published this transaction *)
-  th_read : option nat;        (* the running operation took a snapshot at this version *)
+  th_read : option (nat * nat);  (* the running operation took a snapshot at (version, time) *)
   th_results : list result;    (* results of finished operations, newest first *)
   th_streams : nat             (* open streams created by this script *)
 }.
@@ -158,7 +158,8 @@ Record session := {
   s_ended : bool
 }.
 
-Inductive tstatus := TOpen | TCommitted | TAborted | TFailed | TSnapshot.
+(* TOpen: installed in e.txn; TCommitting: Commit has unset e.txn and not yet stored/published *)
+Inductive tstatus := TOpen | TCommitting | TCommitted | TAborted | TFailed | TSnapshot.
 
 Record txn := {
   t_base_ver : nat;            (* version of the catalog NewTransaction cloned *)
@@ -182,7 +183,7 @@ Record call := {
   k_inv : nat;
   k_ret : nat;
   k_pub : option txid;
-  k_read : option nat;
+  k_read : option (nat * nat);
   k_res : result
 }.
 
@@ -238,7 +239,7 @@ Definition th_set_inv (th : thread) (v : nat) : thread :=
 Definition th_set_pub (th : thread) (v : option txid) : thread :=
   {| th_pc := th_pc th; th_prog := th_prog th; th_cur := th_cur th; th_cancelled := th_cancelled th; th_bg := th_bg th; th_inv := th_inv th; th_pub := v; th_read := th_read th; th_results := th_results th; th_streams := th_streams th |}.
 
-Definition th_set_read (th : thread) (v : option nat) : thread :=
+Definition th_set_read (th : thread) (v : option (nat * nat)) : thread :=
   {| th_pc := th_pc th; th_prog := th_prog th; th_cur := th_cur th; th_cancelled := th_cancelled th; th_bg := th_bg th; th_inv := th_inv th; th_pub := th_pub th; th_read := v; th_results := th_results th; th_streams := th_streams th |}.
 
 Definition th_set_results (th : thread) (v : list result) : thread :=
@@ -312,10 +313,10 @@ Definition s_set_ended (s : session) (v : bool) : session :=
   {| s_mutex := s_mutex s; s_txn := s_txn s; s_starting := s_starting s; s_ended := v |}.
 
 Definition g_upd_session (g : globals) (i : sid) (f : session -> session) : globals :=
-  match nth_error (sessions g) i with
-  | Some s => g_set_sessions g (upd (sessions g) i (f s))
-  | None => g
-  end.
+  g_set_sessions g (match nth_error (sessions g) i with
+                    | Some s => upd (sessions g) i (f s)
+                    | None => sessions g
+                    end).
 
 Definition t_add_op (x : txn) (w : wop) : txn :=
   {| t_base_ver := t_base_ver x; t_base_cat := t_base_cat x; t_ops := t_ops x ++ [w]; t_status := t_status x |}.
@@ -323,10 +324,10 @@ Definition t_set_status (x : txn) (v : tstatus) : txn :=
   {| t_base_ver := t_base_ver x; t_base_cat := t_base_cat x; t_ops := t_ops x; t_status := v |}.
 
 Definition g_upd_txn (g : globals) (i : txid) (f : txn -> txn) : globals :=
-  match nth_error (txns g) i with
-  | Some x => g_set_txns g (upd (txns g) i (f x))
-  | None => g
-  end.
+  g_set_txns g (match nth_error (txns g) i with
+                | Some x => upd (txns g) i (f x)
+                | None => txns g
+                end).
 
 (* NewTransaction(e.catalog): catalog.go Clone; the new id is the table length *)
 Definition new_txn (g : globals) (st : tstatus) : globals * txid :=
@@ -345,7 +346,7 @@ Definition txn_base (g : globals) (x : txid) : nat :=
 
 (* dbkit/semaphore.go Release l.48-54: panics when the channel is full *)
 Definition release (g : globals) : globals :=
-  if token_free g then g_set_sem_panic g true else g_set_token g true.
+  g_set_sem_panic (g_set_token g true) (sem_panic g || token_free g).
 
 Definition is_txn (o : option txid) (x : txid) : bool :=
   match o with Some y => Nat.eqb y x | None => false end.
@@ -501,7 +502,7 @@ Definition tau (c : config) (t : tid) (bgs : bool) (g : globals) (th : thread) :
         if negb (alive g) then goto g1 th (PRetE RClosed None k)
         else if negb lock then
           let (g2, x) := new_txn g1 TSnapshot in
-          goto g2 (th_set_read th (Some (version g))) (PRetE ROk (Some x) k)
+          goto g2 (th_set_read th (Some (version g, now g))) (PRetE ROk (Some x) k)
         else match cs with
              | Some s => if sess_under_lock c then goto g1 th (PBeginSess s k)
                          else if nested then goto g1 th (PRetE RNested None k) else goto g1 th (PBeginUnl k)
@@ -540,7 +541,7 @@ Definition tau (c : config) (t : tid) (bgs : bool) (g : globals) (th : thread) :
                  let g1 := g_set_etxn g None in
                  match txn_ops g x with
                  | [] => goto (g_upd_txn g1 x (fun z => t_set_status z TCommitted)) th (PCommitRel ROk k)
-                 | _ :: _ => goto g1 th (PCommitStore x k)
+                 | _ :: _ => goto (g_upd_txn g1 x (fun z => t_set_status z TCommitting)) th (PCommitStore x k)
                  end
            end
   | PCommitStore x k =>                    (* l.228-231 *)
